@@ -14,14 +14,14 @@ enum { VD_NONE = 0, VD_EQUAL, VD_NULL, VD_DIFFERENT, VD_DIRTY_PADDING, VD_ACCEPT
 static const char *vd_names[VD_N] = { "none", "equal", "null", "different_matrix", "dirty_padding", "accepted_unsupported", "leak", "write_failure_reported", "write_ok", "wrong_dimensions", "accepted_malformed" };
 
 /* ---------- reach probes ---------- */
-#define NPROBE 40
+#define NPROBE 41
 static const char *probe_names[NPROBE] = {
   "torn_in_signature", "torn_in_IHDR", "torn_in_tEXt", "torn_in_IDAT", "torn_in_IEND", "torn_at_chunk_boundary",
   "flip_in_length", "flip_in_type", "flip_in_data", "flip_in_crc", "flip_in_signature",
   "eio_on_png_read", "short_reads_roundtrip", "foreign_depth1", "foreign_depth2", "foreign_depth4", "foreign_depth8", "foreign_depth16",
   "foreign_gray", "foreign_palette", "foreign_rgb", "foreign_rgba", "foreign_gray_alpha", "foreign_interlaced",
   "jcf_index0", "jcf_positive_first", "jcf_index_too_large", "jcf_too_many_rows", "jcf_bad_modulus", "jcf_short_header", "jcf_negative_dims", "jcf_huge_dims", "jcf_torn", "jcf_valid",
-  "write_enospc", "write_open_fail", "write_close_fail", "roundtrip_plain", "from_str", "jcf_eio" };
+  "write_enospc", "write_open_fail", "write_close_fail", "roundtrip_plain", "from_str", "jcf_eio", "torn_between_IDAT_chunks" };
 static uint64_t probes[NPROBE];
 static int probe_id(const char *n) { for (int i = 0; i < NPROBE; i++) if (!strcmp(probe_names[i], n)) return i; return -1; }
 static void probe(const char *n) { int i = probe_id(n); if (i >= 0) probes[i]++; }
@@ -404,6 +404,7 @@ static void run_case(uint64_t seed, uint64_t idx, const char *tier, const char *
     kind = family == 2 ? "torn_png" : family == 3 ? "flipped_png" : "eio_png";
     int nr = 1 + (int)rng_below(&rg, 12), nc = 1 + (int)rng_below(&rg, thorough ? 900 : 260);
     int lvl = (int)rng_below(&rg, 11) - 1;
+    if (family == 2 && (idx / 10) % 4 == 3) { nr = 150 + (int)rng_below(&rg, thorough ? 250 : 60); nc = 700 + (int)rng_below(&rg, 400); } /* big file: several IDAT chunks */
     emit_header(&hd, "A", kind, lib);
     sb_printf(&hd, "clock %lld %lld\n", clk, jump);
     sb_printf(&hd, "mat 0 %d %d rand 128 %llu\n", nr, nc, (unsigned long long)(rng_u64(&rg) >> 1));
@@ -412,7 +413,21 @@ static void run_case(uint64_t seed, uint64_t idx, const char *tier, const char *
     unsigned char *file = parent_write_png(hd.s, &flen);
     if (!file) { printf("K idx=%llu kind=%s writer produced no file\n", (unsigned long long)idx, kind); break; }
     if (family == 2) {
-      for (size_t off = 0; off < flen; off++) { /* EVERY truncation offset */
+      /* small files: EVERY truncation offset; big ones: every chunk boundary -1/0/+1 and a seeded sample of the rest */
+      unsigned char *want = NULL;
+      if (flen > 3000) {
+        want = (unsigned char *)calloc(flen + 2, 1);
+        size_t p = 8;
+        while (p + 12 <= flen) {
+          size_t len = ((size_t)file[p] << 24) | ((size_t)file[p + 1] << 16) | ((size_t)file[p + 2] << 8) | file[p + 3];
+          for (int dlt = -1; dlt <= 1; dlt++) { if (p + dlt < flen) want[p + dlt] = 1; if (p + 8 + dlt < flen) want[p + 8 + dlt] = 1; }
+          if (!memcmp(file + p + 4, "IDAT", 4) && p > 100) probe("torn_between_IDAT_chunks");
+          p += 12 + len;
+        }
+        for (int q = 0; q < (thorough ? 500 : 150); q++) want[rng_below(&rg, flen)] = 1;
+      }
+      for (size_t off = 0; off < flen; off++) {
+        if (want && !want[off]) continue;
         int fld; const char *reg = png_region(file, flen, off, &fld);
         char pn[40]; snprintf(pn, sizeof pn, "torn_in_%s", reg); probe(pn);
         if (fld == 0 && off >= 8) { int f2; png_region(file, flen, off - 1, &f2); if (f2 == 3 || off == 8) probe("torn_at_chunk_boundary"); }
@@ -421,6 +436,7 @@ static void run_case(uint64_t seed, uint64_t idx, const char *tier, const char *
         if (off == 0) eng_write_file(curpath, sb.s);
         run_one(sb.s, 'A', errpath, &t, outdir, idx, (long)off, kind, 1);
       }
+      free(want);
     } else if (family == 3) {
       size_t nflips = flen * 8;
       size_t cap = thorough ? 6000 : 1200;
